@@ -435,6 +435,20 @@ func (r *Run) absorb(c *Case) {
 	}
 }
 
+// memLimitMiB: heap size at which a harness process gives up (VERIF_MEM_LIMIT_MB, default 12288).
+func memLimitMiB() uint64 {
+	if v, err := strconv.ParseUint(os.Getenv("VERIF_MEM_LIMIT_MB"), 10, 64); err == nil && v > 0 {
+		return v
+	}
+	return 12288
+}
+
+func memRunaway() bool {
+	var ms runtime.MemStats
+	runtime.ReadMemStats(&ms)
+	return ms.HeapAlloc>>20 > memLimitMiB()
+}
+
 // skipEngine: VERIF_ONLY_ENGINES=a,b restricts a run to the named engines
 // (prefix match); a debugging aid, such a run disables the observation floors.
 func (r *Run) skipEngine(engine string) bool {
@@ -519,13 +533,38 @@ func (r *Run) runLocal(engine string, n, w, W int, opt Opt, fn func(*Case)) {
 		progF, _ = os.OpenFile(r.child.prog, os.O_CREATE|os.O_WRONLY|os.O_TRUNC, 0o644)
 	}
 	go func() {
-		t := time.NewTicker(2 * time.Second)
+		t := time.NewTicker(500 * time.Millisecond)
 		defer t.Stop()
 		for {
 			select {
 			case <-done:
 				return
 			case <-t.C:
+				if memRunaway() {
+					// the heap of this process grows without bound: end the run before the
+					// machine's out-of-memory killer does. Like a case that does not return,
+					// this is a verdict only for engines whose cases must terminate
+					// (HangViolation) and only when some goroutine is inside golib code.
+					buf := make([]byte, 1<<20)
+					buf = buf[:runtime.Stack(buf, true)]
+					var inflight []int64
+					for k := range slots {
+						if idx := slots[k].idx.Load(); idx >= 0 {
+							inflight = append(inflight, idx)
+						}
+					}
+					os.Stderr.Write(buf)
+					msg := fmt.Sprintf("the process heap passed %d MiB while cases %v of engine %s were running (expected: megabytes)", memLimitMiB(), inflight, engine)
+					if opt.HangViolation && InGolib(string(buf)) && len(inflight) > 0 {
+						r.mu.Lock()
+						r.nviol++
+						r.violations = append(r.violations, Violation{Engine: engine, Index: int(inflight[0]), Sig: "memory-runaway", Msg: msg + "; a goroutine is inside golib code (stacks on stderr)"})
+						r.mu.Unlock()
+					} else {
+						r.Inconclusive("memory watchdog: " + msg)
+					}
+					r.Finish()
+				}
 				now := time.Now().UnixNano()
 				for k := range slots {
 					idx := slots[k].idx.Load()
